@@ -620,6 +620,8 @@ func genPubWorld(r *rand.Rand, n int, emit func(Op)) {
 			}
 			if r.Intn(12) == 0 {
 				fields["id"] = g.url((h+1)%simHosts, name) // lies about where it lives
+			} else if r.Intn(12) == 0 {
+				delete(fields, "id") // does not say where it lives: what it embeds has no source to be believed from
 			}
 			u := g.serve(h, name, fields)
 			notes = append(notes, u)
@@ -633,6 +635,18 @@ func genPubWorld(r *rand.Rand, n int, emit func(Op)) {
 		for d := 0; d < depth; d++ {
 			h := pick(r, []int{home, home, evil})
 			prevURL, prev = mkNote(h, fmt.Sprintf("reply%d", d), map[string]any{"inReplyTo": g.listed(g.refTo(h, prevURL, prev), rootURL)})
+		}
+		anonThread := r.Intn(5) == 0
+		if anonThread {
+			/* the post above the last reply lives on another host, does not say where it lives (no
+			   id), and inlines an author whose id names the reply's host: nothing vouches for that */
+			g.n++
+			anon := map[string]any{"type": "Note", "content": "<p>anon</p>", "attributedTo": g.embed(evil, alice)}
+			if r.Intn(2) == 0 {
+				anon["inReplyTo"] = prevURL
+			}
+			anonURL := g.serve(evil, fmt.Sprintf("anon%d", g.n), anon)
+			prevURL, prev = mkNote(home, "replyanon", map[string]any{"inReplyTo": anonURL})
 		}
 		/* replies collection of root: genuine and impostor comments */
 		comments := []any{}
@@ -793,6 +807,9 @@ func genPubWorld(r *rand.Rand, n int, emit func(Op)) {
 			}
 		}
 		starts := []string{rootURL, aliceURL, aliceURL, aliceURL, malloryURL, bobURL, prevURL, outboxURL, forgedAliceURL}
+		if anonThread {
+			starts = append(starts, prevURL, prevURL, prevURL)
+		}
 		if len(notes) > 0 {
 			starts = append(starts, pick(r, notes))
 		}
